@@ -259,6 +259,7 @@ def check_scenarios(tier):
         try:
             with _w.catch_warnings():
                 _w.simplefilter("error")
+                _w.filterwarnings("ignore", category=SyntaxWarning)   # compile-time warnings of a (re)import are not part of the call
                 _np.seterr(all="raise")
                 sys.stdout = io.TextIOWrapper(io.BytesIO(), encoding="ascii", errors="strict", write_through=True)
                 o = SP(CYCLE)
